@@ -192,6 +192,33 @@ def oracle(case, rec):
                     n_nodes=n, directed=directed, node_weights=ww,
                     silence_level=3), attrs)),
     ]
+    # the caller keeps its buffers and reuses them for something else once
+    # the network is built: the network is the one it was built as
+    def keeps_buffers():
+        bufs = [A.astype(np.int16), sp.csc_matrix(A.astype(np.int16))]
+        wbuf = None if w is None else np.array(w, dtype=np.float64)
+        abuf = {k: np.array(v, dtype=np.float64) for k, v in attrs.items()}
+        nets = []
+        for b in bufs:
+            net = Network(adjacency=b, directed=directed, node_weights=wbuf,
+                          silence_level=3)
+            for k, v in abuf.items():
+                net.set_link_attribute(k, v)
+            nets.append(net)
+        nets.append(nets[0].copy())
+        bufs[0][...] = 1 - bufs[0]
+        bufs[1].data[...] = 0
+        if wbuf is not None:
+            wbuf *= 2.0
+            wbuf += 1.0
+        for v in abuf.values():
+            v *= -3.0
+        return nets
+    ok, nets = rec.call("caller_buffers_construct", keeps_buffers)
+    if ok:
+        for tag, net in zip(("dense", "csc", "copy"), nets):
+            check_net(rec, net, "after_caller_reuses_buffers_" + tag, g, n, A,
+                      w, attrs)
     base = None
     for path, fn in paths:
         ok, net = rec.call("%s_construct" % path, fn)
